@@ -224,3 +224,76 @@ Print Assumptions C15_multibw_doc_single_is_bw.
 (* non-vacuity *)
 Example C15b_example : 0 < snd (BWR_LS2 1 (3 / 2) (1 / 10) ((1 / 2) ^ 2) ((3 / 4) ^ 2) [0%nat; 2%nat] 3 1).
 Proof. apply bwr_ls2_im_pos; cbn; try lra; auto with arith. Qed.
+
+(* ====================================================================================================
+   Hunt round 2: statements about the code AFTER the repairs of patches 1, 3, 5, 8 (build/fix2_C15);
+   the behaviour before each repair is kept as a ..._refuted statement.
+   ==================================================================================================== *)
+
+(* MultiBWR (patch 3): EVERY member, at its own mass, equals i/(m0_k Gamma0_k) (so Gamma_k(m0_k) = Gamma0_k); the old
+   common-q0 behaviour is C15_multibwr_sub_resonance_pole_refuted above *)
+Theorem C15_multibwr_member_at_own_pole : forall m1 m2 l d res k m0 g0,
+  nth_error res k = Some (m0, g0) ->
+  (l <= 8)%nat -> 0 < get_relative_p2 m0 m1 m2 -> m0 <> 0 -> g0 <> 0 ->
+  nth k (multi_doms_own m0 (get_relative_p2 m0 m1 m2) m1 m2 l d res) (0, 0) = (0, 1 / (m0 * g0)).
+Proof. exact multibwr_member_at_own_pole. Qed.
+Print Assumptions C15_multibwr_member_at_own_pole.
+
+(* ... and is the documented BWR of its own (m0_k, Gamma0_k, q0_k) above threshold *)
+Theorem C15_multibwr_member_is_bwr : forall m q m1 m2 l d res k m0 g0 q0,
+  nth_error res k = Some (m0, g0) ->
+  (l <= 8)%nat -> 0 < q -> 0 < q0 -> get_relative_p2 m0 m1 m2 = q0 ^ 2 ->
+  nth k (multi_doms_own m (q ^ 2) m1 m2 l d res) (0, 0) = BWR m m0 g0 q q0 l d.
+Proof. exact multibwr_member_is_bwr. Qed.
+Print Assumptions C15_multibwr_member_is_bwr.
+
+Theorem C15_multibwr_own_single_swave_is_bwr : forall m q q0 m1 m2 d m0 g0,
+  0 < q -> 0 < q0 -> get_relative_p2 (multi_ref_mass [(m0, g0)]) m1 m2 = q0 ^ 2 ->
+  MultiBWR_own m (q ^ 2) (get_relative_p2 (multi_ref_mass [(m0, g0)]) m1 m2) m1 m2 [0%nat] d [(m0, g0)] [[(1, 0)]] 0 = BWR m m0 g0 q q0 0 d.
+Proof. exact multibwr_own_single_swave_is_bwr. Qed.
+Print Assumptions C15_multibwr_own_single_swave_is_bwr.
+
+Theorem C15_multibwr_own_additive : forall m q2 q02 m1 m2 ls d res ca cb,
+  length ca = length cb ->
+  MultiBWR_own m q2 q02 m1 m2 ls d res [coeff_add ca cb] 0 =
+  Cadd (MultiBWR_own m q2 q02 m1 m2 ls d res [ca] 0) (MultiBWR_own m q2 q02 m1 m2 ls d res [cb] 0).
+Proof. exact multibwr_own_additive. Qed.
+Print Assumptions C15_multibwr_own_additive.
+
+Theorem C15_multibwr_own_homogeneous : forall m q2 q02 m1 m2 ls d res k ca,
+  MultiBWR_own m q2 q02 m1 m2 ls d res [map (Cmul k) ca] 0 = Cmul k (MultiBWR_own m q2 q02 m1 m2 ls d res [ca] 0).
+Proof. exact multibwr_own_homogeneous. Qed.
+Print Assumptions C15_multibwr_own_homogeneous.
+
+(* LS-decay (patch 8): the option has_barrier_factor cannot remove the resonance line shape; before the repair it did *)
+Theorem C15_ls_decay_keeps_line_shape : forall b g R, ls_decay_amp_opt b g R = Cmul g R.
+Proof. exact ls_decay_amp_opt_keeps_line_shape. Qed.
+Print Assumptions C15_ls_decay_keeps_line_shape.
+Theorem C15_ls_decay_old_keeps_line_shape_refuted : exists g R, ls_decay_amp_opt_old false g R <> Cmul g R.
+Proof. exact ls_decay_amp_opt_old_keeps_line_shape_refuted. Qed.
+Print Assumptions C15_ls_decay_old_keeps_line_shape_refuted.
+
+(* Particle.__call__ (patch 5): the q^2 handed to BWR2 / BWR_normal / BWR_coupling is the unclamped one of the amplitude;
+   above threshold nothing changes, below it the old clamped value differed (and made BWR2 NaN through q0^2 = 0) *)
+Theorem C15_call_q2_old_above : forall m m1 m2, 0 < m -> m1 + m2 <= m -> 0 <= m1 -> 0 <= m2 -> call_q2_old m m1 m2 = call_q2 m m1 m2.
+Proof. exact call_q2_old_above. Qed.
+Print Assumptions C15_call_q2_old_above.
+Theorem C15_call_q2_old_below_refuted : exists m0 m1 m2, 0 < m0 < m1 + m2 /\ call_q2_old m0 m1 m2 <> call_q2 m0 m1 m2.
+Proof. exact call_q2_old_below_refuted. Qed.
+Print Assumptions C15_call_q2_old_below_refuted.
+(* m0 below threshold, m above: the q^2-based Breit-Wigner is finite and real *)
+Theorem C15_bwr2_m0_below_is_real : forall m m0 g0 q2 q02 L d, q2 / q02 < 0 -> snd (BWR2 m m0 g0 q2 q02 L d) = 0.
+Proof. exact bwr2_m0_below_is_real. Qed.
+Print Assumptions C15_bwr2_m0_below_is_real.
+
+(* symbolic denominator (patch 1): with the SAME barrier radius it is the reciprocal; with the radius frozen at 3 it is not *)
+Theorem C15_bwr_dom_reciprocal : forall m m0 g0 q q0 L d,
+  (m0 * m0 - m * m) * (m0 * m0 - m * m) + (m0 * Gamma m g0 q q0 L m0 d) * (m0 * Gamma m g0 q q0 L m0 d) <> 0 ->
+  Cmul (BWR m m0 g0 q q0 L d) (BWR_dom m m0 g0 q q0 L d) = (1, 0).
+Proof. exact bwr_dom_reciprocal. Qed.
+Print Assumptions C15_bwr_dom_reciprocal.
+Theorem C15_bwr_dom_ignoring_d_refuted :
+  exists m m0 g0 q q0 L d, 0 < g0 /\ 0 < q /\ 0 < q0 /\
+    Cmul (BWR m m0 g0 q q0 L d) (BWR_dom m m0 g0 q q0 L 3) <> (1, 0).
+Proof. exact bwr_dom_ignoring_d_refuted. Qed.
+Print Assumptions C15_bwr_dom_ignoring_d_refuted.
